@@ -78,6 +78,29 @@ func decompose(cond ast.Expr, truth bool, edge *GNode, out *[]Fact) {
 			}
 			return
 		}
+		if c.Op == token.LOR && truth {
+			// p == nil || B : B holds whenever p is non-nil (the De Morgan dual of the case above; the shape a predicate
+			// helper `if p == nil { return true }; return B` takes when it is inlined)
+			if bx, ok := unparen(c.X).(*ast.BinaryExpr); ok && bx.Op == token.EQL {
+				var p ast.Expr
+				if id, ok := unparen(bx.Y).(*ast.Ident); ok && id.Name == "nil" {
+					p = bx.X
+				} else if id, ok := unparen(bx.X).(*ast.Ident); ok && id.Name == "nil" {
+					p = bx.Y
+				}
+				if p != nil {
+					var sub []Fact
+					decompose(c.Y, true, edge, &sub)
+					for _, f := range sub {
+						if f.Unless == nil {
+							f.Unless = unparen(p)
+							*out = append(*out, f)
+						}
+					}
+				}
+			}
+			return
+		}
 		if c.Op == token.LAND || c.Op == token.LOR {
 			// a disjunction of possibilities: nothing atomic is implied
 			return
